@@ -218,8 +218,10 @@ Definition exp_body_compile : list string := ["bb := &strings.Builder{}";
    "for _, stmt := range c.program.Statements { var res interface{} var err error c.curStmt = nil switch node := stmt.(type) { case *ast.ReturnStatement: res, err = c.evalReturnStatement(node) case *ast.ExpressionStatement: if h, ok := node.Expression.(*ast.HTMLLiteral); ok { res = template.HTML(h.Value) } else { _, err = c.evalExpression(node.Expression) } case *ast.LetStatement: res, err = c.evalLetStatement(node) } if err != nil { s := stmt if c.curStmt != nil { s = c.curStmt } return """", fmt.Errorf(""E"", s.T().LineNumber, err) } c.write(bb, res) }";
    "return bb.String(), nil"].
 
-Definition exp_body_evalBlockStatement : list string := ["res := []interface{}{}";
-   "for _, s := range node.Statements { i, err := c.evalStatement(s) if err != nil { return nil, err } val, exitBlock := i.(exitBlockStatment) if !exitBlock { if i != nil { res = append(res, i) } } else { var resValue interface{} switch obj := val.(type) { case continueObject: obj = continueObject{Value: append(res, obj.Value...)} resValue = obj case breakObject: obj = breakObject{Value: append(res, obj.Value...)} resValue = obj case returnObject: res = append(res, i) obj.Value = res resValue = obj } return resValue, nil } }";
+Definition exp_body_evalBlockStatement : list string := ["outer := c.curStmt";
+   "res := []interface{}{}";
+   "for _, s := range node.Statements { i, err := c.evalStatement(s) if err != nil { return nil, err } val, exitBlock := i.(exitBlockStatment) if !exitBlock { if i != nil { res = append(res, i) } } else { var resValue interface{} switch obj := val.(type) { case continueObject: obj = continueObject{Value: append(res, obj.Value...)} resValue = obj case breakObject: obj = breakObject{Value: append(res, obj.Value...)} resValue = obj case returnObject: res = append(res, i) obj.Value = res resValue = obj } c.curStmt = outer return resValue, nil } }";
+   "c.curStmt = outer";
    "return res, nil"].
 
 Definition exp_body_evalReturnStatement : list string := ["res, err := c.evalExpression(node.ReturnValue)";
